@@ -114,7 +114,7 @@ class C06(Check):
     GROUP = 12
     CASE_TIMEOUT = 60.0
     FAMILIES = ('ids', 'keys', 'xsitype', 'subst', 'fixed', 'wild', 'ns', 'mixed', 'assert11', 'big', 'multi', 'shadow', 'idfields',
-                'ondemand')
+                'ondemand', 'deepkey', 'grouped', 'simple')
     RULE = ("case = (schema family/version, pool document, API, lazy depth, thin_lazy, channel, delivery plan) "
             "drawn from the run seed; executed on a lazy XMLResource fed by a simulated stream/file/peer and "
             "compared with the eager reference of the same bytes computed in a pristine fork. Skeleton = "
@@ -234,15 +234,21 @@ class C06(Check):
 
     def gen_case(self, rng, index):
         key = rng.choice(self.keys)
+        # a tenth of the runs: families whose identity selectors reach below the lazy depth (what a selector sees
+        # depends on how far ahead the parser has built the tree), validated - the deciding APIs at depth 1
+        ahead = [k for k in self.keys if k.startswith(('deepkey/', 'keys/', 'idfields/'))]
+        focus = bool(ahead) and rng.random() < 0.1
+        if focus:
+            key = rng.choice(ahead)
         e = self.entries[key]
         di = rng.randrange(len(e.docs))
         data = e.docs[di].data
-        depth = rng.choice([1, 1, 1, 1, 2, 3])
+        depth = 1 if focus else rng.choice([1, 1, 1, 1, 2, 3])
         apis = ['iter_errors', 'iter_errors', 'is_valid', 'to_json', 'to_json', 'to_json_strict', 'to_json_skip',
                 'res_depth', 'res_iter', 'res_ns', 'res_loc']
         if e.family.paths:
             apis += ['iter_decode_path', 'res_find']
-        api = rng.choice(apis)
+        api = rng.choice(['iter_errors', 'is_valid']) if focus else rng.choice(apis)
         if e.docs[di].kind == 'fault:double' and api.startswith('to_json'):
             # two faults x lazy decoding multiplies the listed lazy-decode findings into many surface forms
             # without adding information: double-fault documents go through validation only
